@@ -792,6 +792,65 @@ func (s *machine) notify(t *rapid.T) {
 		rapid.IntRange(0, 3).Draw(t, "probe") == 0)
 }
 
+// overlapNotifies: while one notification is being written (its writer is held), k further notifications
+// run to completion on the same connection; then the first one is let go. Afterwards everything is quiet
+// and the clauses are judged as after any other step.
+func (s *machine) overlapNotifies(t world.TB, k int) {
+	var fired atomic.Bool
+	inside := false
+	s.c.cap.SetOnWrite(func([]byte) {
+		if !fired.CompareAndSwap(false, true) {
+			return
+		}
+		done := make(chan struct{})
+		go func() {
+			defer close(done)
+			for i := 0; i < k; i++ {
+				_, _ = s.c.sender.Notify(s.c.locals[1], s.c.notifyDest, dataCmd(i%4, 50+i))
+			}
+		}()
+		select {
+		case <-done:
+			inside = true
+		case <-time.After(5 * time.Second): // (a sender that serialises its notifications: they follow later)
+			go func() { <-done }()
+		}
+	})
+	_, err := s.c.sender.Notify(s.c.locals[1], s.c.notifyDest, dataCmd(0, 49))
+	s.c.cap.SetOnWrite(nil)
+	if err != nil {
+		t.Fatalf("harness: Notify failed on a capture writer: %v", err)
+	}
+	if !inside {
+		// wait for the stragglers so that the log is complete
+		deadline := time.Now().Add(30 * time.Second)
+		for s.c.cap.Len() < len(s.m.wires)+1+k && time.Now().Before(deadline) {
+			time.Sleep(time.Millisecond)
+		}
+	}
+	s.c.sync()
+	wrote := s.absorb(t)
+	s.log("notify with %d further notifications inside its write (overlapped=%v)", k, inside)
+	s.trace[len(s.trace)-1] = fmt.Sprintf("overlap(%d,%v)", k, inside)
+	if len(wrote) != 1+k {
+		world.Fail(t, "C13/notify/datagram-count", "%d overlapping notifications wrote %d datagrams%s", 1+k, len(wrote), s.hist())
+	}
+	world.Label(fmt.Sprintf("overlap/notifies-inside-a-write/%v", inside))
+	s.labels["overlap"] = true
+}
+
+func (s *machine) overlap(t *rapid.T) {
+	k := rapid.IntRange(1, 3).Draw(t, "inside")
+	if s.room(t, 1+k) < 1+k {
+		s.log("overlap-avoided")
+		return
+	}
+	s.overlapNotifies(t, k)
+	if rapid.Bool().Draw(t, "verifyNow") {
+		s.verifyWindow(t, false)
+	}
+}
+
 func (s *machine) doLookup(t world.TB, kind string, ctr uint64) string {
 	got, err := s.c.sender.DatagramForMsgCounter(model.MsgCounterType(ctr))
 	s.log("lookup(%s,%d)", kind, ctr)
@@ -1052,6 +1111,7 @@ func TestSenderSequential(t *testing.T) {
 			"nmcall":   s.nmcall,
 			"response": s.response,
 			"notify":   s.notify,
+			"overlap":  s.overlap,
 			"lookup":   s.lookup,
 			"lookup2":  s.lookup,
 			"verify":   s.verify,
@@ -1168,6 +1228,28 @@ func TestNotifyWindow(t *testing.T) {
 			failed++
 		}
 	}
+	// notifications that overlap in time around the point where the cache is full
+	overlaps := 0
+	for _, pre := range []int{0, 1, 50, 97, 98, 99, 100, 101, 150} {
+		for _, k := range []int{1, 2, 3} {
+			for _, rounds := range []int{1, 3} {
+				pre, k, rounds := pre, k, rounds
+				overlaps++
+				world.Guard(func() {
+					s := newMachine(t, "direct")
+					s.burstNotifies(t, pre)
+					for r := 0; r < rounds; r++ {
+						s.overlapNotifies(t, k)
+					}
+					s.verifyWindow(t, false)
+					s.burstNotifies(t, 2)
+					s.verifyWindow(t, true)
+					world.Record(world.Hash("overlap", pre, k, rounds), pre+rounds*(1+k) > notifyWindow, "window/overlapping-notifies")
+				})
+			}
+		}
+	}
+	world.SetExtra("notify_window_overlap_scenarios", overlaps)
 	world.SetExtra("notify_window_scenarios", len(scs))
 	world.SetExtra("notify_window_scenarios_hitting_known_finding", failed)
 }
